@@ -14,14 +14,20 @@ PROP = {
     #   fails after 5d8ba60d is the documented priority of the configured minimums (known finding F11a, match
     #   {"retained_over_max_nr": true, "protected_by_configured_minimum": true}); an exceedance the minimums do not
     #   explain has "protected_by_configured_minimum": false and stays a VIOLATION.
+    # maxnr 1: the scripted boundary histories (in every run): max_nr 1..4 with min_nr strictly below it (0 and 1
+    #   included), min_seconds 0, generous max_seconds, max_nr + 3 consecutive updates of one small element each in
+    #   one session on top of a large snapshot (size rule out of the way): the retained deltas / the delta entries
+    #   of the notification file must stop at exactly max_nr; an excess there is "not_protected" (VIOLATION; this is
+    #   where a count test off by one - seeded C11-7, keep >= max_nr - shows); one history with min_nr = max_nr as
+    #   the contrast (excess explained by the minimum: F11a residue).
     # f11b 1: a worker with rrdp_delta_files_max_nr = 0 (panicked before 5d8ba60d).
     # candidates 1: scripted replays of the known findings F11e (module-name case) and F11h (object URI that is a
     #   directory prefix of another), match {"kind": "candidate", "id": ...}, and the regression check for F11f.
-    'extra': {'quick': {'rounds': 1, 'steps': 11, 'cuts': 1, 'rsynccut': 1, 'stalenotif': 1, 'f11a': 1, 'f11b': 1, 'candidates': 1},
-              'thorough': {'rounds': 6, 'steps': 22, 'cuts': 1, 'rsynccut': 1, 'stalenotif': 1, 'f11a': 1, 'f11b': 1, 'candidates': 1}},
+    'extra': {'quick': {'rounds': 1, 'steps': 11, 'cuts': 1, 'rsynccut': 1, 'stalenotif': 1, 'f11a': 1, 'f11b': 1, 'candidates': 1, 'maxnr': 1},
+              'thorough': {'rounds': 6, 'steps': 22, 'cuts': 1, 'rsynccut': 1, 'stalenotif': 1, 'f11a': 1, 'f11b': 1, 'candidates': 1, 'maxnr': 1}},
     'replay_header': C11_HEADER,
     'replay_footer': '\n'.join('Eval vm_compute in (failing %s base_index cases).' % e for e in C11_EVALS),
-    'stats_keys': ['histories', 'case_kind_distribution', 'op_distribution', 'strict_max_nr', 'rsync_cuts', 'f11b_replay', 'candidate_replays'],
+    'stats_keys': ['histories', 'case_kind_distribution', 'op_distribution', 'strict_max_nr', 'max_nr_boundary', 'rsync_cuts', 'f11b_replay', 'candidate_replays'],
     'harness_timeout': 3000,
     'assumptions': [
         'hashes identify contents (SHA-256 collision-freeness): a reference in a notification is modelled as the content it is the hash of; the harness names a hash by the parsed content of the file it was computed from',
@@ -37,7 +43,7 @@ PROP = {
 }
 
 META = {
-    'text': 'Theorems (Coq, closed under the global context) about a model of the RRDP server state (session, serial, snapshot, retained deltas; apply_rrdp_updated, find_deltas_truncate_age with its usize arithmetic, deltas_truncate_size, session reset), of update_rrdp_files and RsyncdStore::write as lists of file-system operations over a model file system (create with truncation, write, atomic rename, remove; clean-up computed from directory listings), and of an RRDP client: serials grow by one per update and the session changes only on a reset, which restarts at serial 1 without deltas (serial_step, session_only_on_reset, reset_restarts); the retained deltas are a contiguous run ending at the current serial in every reachable state (deltas_contiguous); a client at any earlier serial of the session holding that serial\'s snapshot reaches exactly the current snapshot through the offered deltas with every hash check passing whenever the chain is offered from its serial (delta_chain_sound, through C10\'s staged_refines); the snapshot is the publishers\' published+staged objects (snapshot_is_state); for EVERY cut point of the operation list of an update the notification file is the old one or the complete new one and names only files present with the stated hashes (files_consistent_at_every_prefix, update_files_success); the notification on disk is exactly the one of the state after the first write and after every update / session reset followed by a complete write, and what a client reads from the files is what the state offers (files_match_init / _update / _reset, new_notif_descends, files_offer_state); after a successful rsync write rsync/current holds exactly the snapshot\'s objects whatever was left in rsync/tmp-<serial> (rsync_equals_snapshot_after_success; before e2447e97 refuted: F11f fixed) and whatever prefix of a write was executed every later write completes (rsync_recovers_after_cut; the procedure before e1f99c61 refuted: rsync_interrupted_then_stuck, F11c fixed); retention by number exactly as the loop behaves since 5d8ba60d (find_total / rstep_total: no panic; kept_beyond_max_protected and retention_explained_system: a delta retained beyond max_nr is protected by min_nr or min_seconds; retention_bound, retention_bound_strong, retention_max_or_protected, retention_system: at most max(max_nr, 1 + protected old deltas); kept_not_old, protected_prefix_kept, truncate_age_stop; rules_agree_where_unprotected) with the unconditional "never more than max_nr" refuted by the priority of the configured minimums (rest of F11a) and the count test of before the fix refuted as regression examples (pinned_keeps_unprotected_beyond_max, max_nr_zero_panics / _wraps: F11a defect part and F11b, fixed). The non-truncating file creation before 861388f0 is refuted by stale_new_notification_corrupts (F11g fixed). Tied to the code by a correspondence run of the real RepositoryManager with a disk repository: every update / reset transition of the stored state, every repository write (directory tree before/after, recorded mutation trace, parsed files), simulated clients at every earlier serial, and for EVERY mutation of one write a crash in a worker subprocess followed by a write from a fresh runtime - each checked inside Coq against the model and against the executable form of the theorems.',
+    'text': 'Theorems (Coq, closed under the global context) about a model of the RRDP server state (session, serial, snapshot, retained deltas; apply_rrdp_updated, find_deltas_truncate_age with its usize arithmetic, deltas_truncate_size, session reset), of update_rrdp_files and RsyncdStore::write as lists of file-system operations over a model file system (create with truncation, write, atomic rename, remove; clean-up computed from directory listings), and of an RRDP client: serials grow by one per update and the session changes only on a reset, which restarts at serial 1 without deltas (serial_step, session_only_on_reset, reset_restarts); the retained deltas are a contiguous run ending at the current serial in every reachable state (deltas_contiguous); a client at any earlier serial of the session holding that serial\'s snapshot reaches exactly the current snapshot through the offered deltas with every hash check passing whenever the chain is offered from its serial (delta_chain_sound, through C10\'s staged_refines); the snapshot is the publishers\' published+staged objects (snapshot_is_state); for EVERY cut point of the operation list of an update the notification file is the old one or the complete new one and names only files present with the stated hashes (files_consistent_at_every_prefix, update_files_success); the notification on disk is exactly the one of the state after the first write and after every update / session reset followed by a complete write, and what a client reads from the files is what the state offers (files_match_init / _update / _reset, new_notif_descends, files_offer_state); after a successful rsync write rsync/current holds exactly the snapshot\'s objects whatever was left in rsync/tmp-<serial> (rsync_equals_snapshot_after_success; before e2447e97 refuted: F11f fixed) and whatever prefix of a write was executed every later write completes (rsync_recovers_after_cut; the procedure before e1f99c61 refuted: rsync_interrupted_then_stuck, F11c fixed); retention by number exactly as the loop behaves since 5d8ba60d (find_total / rstep_total: no panic; kept_beyond_max_protected and retention_explained_system: a delta retained beyond max_nr is protected by min_nr or min_seconds; retention_bound, retention_bound_strong, retention_max_or_protected, retention_system: at most max(max_nr, 1 + protected old deltas); retention_within_max: at most max_nr deltas, the new one included, whenever min_nr < max_nr and no old delta at an index >= max_nr - 1 is younger than min_seconds; truncate_age_exact: then, none being older than max_seconds, exactly the newest max_nr - 1 old deltas are kept; kept_not_old, protected_prefix_kept, truncate_age_stop; rules_agree_where_unprotected) with the unconditional "never more than max_nr" refuted by the priority of the configured minimums (rest of F11a) and the count test of before the fix refuted as regression examples (pinned_keeps_unprotected_beyond_max, max_nr_zero_panics / _wraps: F11a defect part and F11b, fixed). The non-truncating file creation before 861388f0 is refuted by stale_new_notification_corrupts (F11g fixed). Tied to the code by a correspondence run of the real RepositoryManager with a disk repository: every update / reset transition of the stored state, every repository write (directory tree before/after, recorded mutation trace, parsed files), simulated clients at every earlier serial, in every run scripted histories at the boundary of the maximum number (max_nr 1..4, min_nr below it, min_seconds 0, more than max_nr consecutive small updates in one session on a large snapshot: the retained deltas and the delta entries of the notification file stop at exactly max_nr, an excess no configured minimum explains is a violation), and for EVERY mutation of one write a crash in a worker subprocess followed by a write from a fresh runtime - each checked inside Coq against the model and against the executable form of the theorems.',
     'design_ref': 'DESIGN.md section 5 C11, Appendix A.1, A.4, section 6 F11a-F11g',
     'note': 'Trusted: Coq kernel + vm_compute; harness abstraction of the directory tree, of the stored RepositoryContent and of probe events. Modelled not verified: src/server/pubd/rrdp.rs (RrdpServer 53-81, 262-455, update_rrdp_files 460-853, file layout), rsync.rs (RsyncdStore::write), content.rs/manager.rs (write_repository, update_rrdp_if_needed, session_reset), commons/file.rs (create_file, save), config.rs (RrdpUpdatesConfig). Outside: atomicity of rename(2), partial write(2), readers racing a write, ages within a second of a limit (theorems only), archive mode on more than a sample, URIs differing only in module case (F11e) and an object URI that is a directory prefix of another (F11h): known findings, replayed by script.',
     'technique': 'Coq proof over a file-system / state-machine model (induction over operation lists and request sequences, per-key reasoning through C10\'s staged merge) + correspondence and cut-point runs evaluated in Coq',
